@@ -7,6 +7,16 @@ def parseKind : String → Option Kind
   | "ekeygen" => some .ekeygen | "fkeygen" => some .fkeygen | "eresharing" => some .eresharing
   | "fresharing" => some .fresharing | "esigning" => some .esigning | "fsigning" => some .fsigning | _ => none
 
+/-- `cell <signing kind> retried`: constructor, a Run that leaves at its first conditional return (SubsetError), a Run
+    that runs the protocol, Stop -/
+def retriedDelta (k : Kind) (h : Nat) : Option Delta := do
+  let p := table k
+  let c ← (pathsOf p.ctor .full).head?
+  let r1 ← (pathsOf p.run .early).head?
+  let r2 ← (pathsOf p.run .full).head?
+  let st ← (pathsOf p.stop .full).head?
+  pure (activation st (activation r2 (activation r1 (activation c (Delta.start h)))))
+
 /-- harness outcome ↦ (model outcome, what Execute returns) -/
 def parseOutcome : String → Option (Outcome × String)
   | "refused" => some (.refused, "refused")
@@ -37,9 +47,22 @@ def parseDelta (s : String) : Option Delta :=
 
 def handle (op : String) (args : List String) (impl : String) : Option Verdict :=
   match op, args with
+  | "cell", [kind, "retried"] => some <| Id.run do
+    let some k := parseKind kind | return bad
+    if k.exclusive then return bad
+    let some d := retriedDelta k 0 | return bad
+    let m := "ok;" ++ showDelta d
+    let ok := match impl.splitOn ";" with
+      | [r, ds] => r != "hang" && (match parseDelta ds with
+        | some id => decide (Balanced id) && decide (RunsUnderLock k id)
+        | none => false)
+      | _ => false
+    return ⟨m, ok, s!"cell:{kind}:retried"⟩
   | "cell", [kind, oc] => some <| Id.run do
     let some k := parseKind kind | return bad
     let some (o, ret) := parseOutcome oc | return bad
+    -- a retryable (signing) process whose coordinator stays silent is retried; nobody answers, the caller cancels
+    let ret := if oc == "silent" && !k.exclusive then "ok" else ret
     -- the harness takes the FIRST conditional return where one is taken; every other path is covered by the theorem
     let some d := (sessionFrom true (table k) o 0).head? | return bad
     let m := ret ++ ";" ++ showDelta d
@@ -53,24 +76,27 @@ def handle (op : String) (args : List String) (impl : String) : Option Verdict :
   | "seq", [its] => some <| Id.run do
     -- sessions one after another on one relayer: one lock (and one counter set) per store, effects accumulate
     let some steps := (items its ",").mapM (fun it => match it.splitOn ":" with
+      | [k, "retried"] => do
+        let k' ← parseKind k
+        if k'.exclusive then none else pure (k, k', Outcome.ran, "ok", true)
       | [k, o] => do
         let k' ← parseKind k
         let (o', ret) ← parseOutcome o
-        pure (k, k', o', ret)
+        pure (k, k', o', if o == "silent" && !k'.exclusive then "ok" else ret, false)
       | _ => none) | return bad
     let mut ec := Delta.start 0
     let mut fr := Delta.start 0
     let mut outs : List String := []
-    for (name, k, o, ret) in steps do
+    for (name, k, o, ret, retried) in steps do
       let onE := name.startsWith "e"
       let cur := if onE then ec else fr
-      let some d := (sessionFrom true (table k) o cur.held).head? | return bad
+      let some d := (if retried then retriedDelta k cur.held else (sessionFrom true (table k) o cur.held).head?) | return bad
       let tot := cur.add d
       if onE then ec := tot else fr := tot
       outs := outs ++ [ret ++ ";" ++ showDelta tot]
     let m := "|".intercalate outs
     let parts := impl.splitOn "|"
-    let ok := parts.length = steps.length && (steps.zip parts).all fun ((_, k, o, _), p) =>
+    let ok := parts.length = steps.length && (steps.zip parts).all fun ((_, k, o, _, _), p) =>
       match p.splitOn ";" with
       | [r, ds] => r != "hang" && (match parseDelta ds with
         | some id => decide (Balanced id) && (o != .ran || decide (RunsUnderLock k id))
